@@ -390,6 +390,80 @@ fn count() -> impl Strategy<Value = u32> {
     prop_oneof![Just(0u32), Just(1), Just(2), Just(3), Just(7), Just(4096), Just(70_000), 0u32..600]
 }
 
+/// Counts around the arena's chunk-size sequence (4 KiB .. 1 MiB) and beyond.
+fn big_count() -> impl Strategy<Value = u32> {
+    prop_oneof![
+        2 => prop_oneof![Just(1u32 << 20), Just((1 << 20) - 1), Just((1 << 20) + 1), Just(1 << 19), Just((1 << 19) + 1), Just(1 << 18), Just(1 << 21)],
+        2 => 250_000u32..1_200_000,
+        1 => (1u32 << 20) - 5000..(1u32 << 20) + 5000,
+        1 => 4000u32..70_000,
+        1 => 0u32..300,
+    ]
+}
+
+/// Several reads in a row on one arena (fresh, or one whose chunks have already grown).
+#[derive(Clone, Debug, PartialEq, Eq, Hash, Serialize, Deserialize)]
+pub struct SeqCase {
+    /// `ensure_capacity` calls made first (they grow the arena's chunk size).
+    pub warmup: Vec<u32>,
+    /// (count, script, attempts) per read, all on the same arena; the slices are kept alive.
+    pub reads: Vec<(u32, Vec<Step>, u8)>,
+}
+
+pub fn check_seq_case(case: &SeqCase) -> CaseResult {
+    let mut arena = ByteArena::new();
+    for w in &case.warmup {
+        arena.ensure_capacity(*w as usize);
+    }
+    let data = source(2_200_000);
+    let mut kept: Vec<(owning_iovec::AnchoredSlice, usize, usize)> = vec![];
+    let mut pos = 0usize;
+    let mut nontrivial = false;
+    for (i, (count, script, attempts)) in case.reads.iter().enumerate() {
+        let count = *count as usize;
+        let attempts = (*attempts as usize).max(1);
+        let left = &data[pos.min(data.len())..];
+        let want = reference(script, left.len(), count, attempts);
+        let desc = format!("read #{i}: read_n(count {count}, attempts {attempts}) after warm-up {:?}, script {script:?}", case.warmup);
+        let mut reader = FaultReader::new(left, script);
+        let r = arena.read_n(&mut reader, count, NonZeroUsize::new(attempts).unwrap());
+        let got = r.as_ref().map(|s| s.slice().to_vec()).map_err(|e| std::io::Error::new(e.kind(), e.to_string()));
+        compare("arena-seq", &desc, &reader, &want, &got, left, 0)?;
+        if let Ok(slice) = r {
+            kept.push((slice, pos, pos + want.delivered));
+        }
+        pos += want.delivered;
+        nontrivial |= count >= 1 << 19;
+        // Earlier slices stay intact and disjoint.
+        let mut ranges: Vec<(usize, usize)> = vec![];
+        for (k, (s, a, b)) in kept.iter().enumerate() {
+            if s.slice() != &data[*a..*b] {
+                return Err(Fail::new("arena-seq:overwritten", format!("{desc}: the slice returned by read #{k} changed")));
+            }
+            if !s.slice().is_empty() {
+                let r = s.slice().as_ptr_range();
+                ranges.push((r.start as usize, r.end as usize));
+            }
+        }
+        ranges.sort_unstable();
+        if ranges.windows(2).any(|w| w[1].0 < w[0].1) {
+            return Err(Fail::new("arena-seq:overlap", format!("{desc}: two returned slices overlap")));
+        }
+    }
+    Ok(Outcome::new(nontrivial).label_if(case.warmup.iter().any(|w| *w >= 1 << 19), "large_warmup").label_if(case.reads.len() >= 3, ">=3_reads"))
+}
+
+fn seq_case_strategy() -> impl Strategy<Value = SeqCase> {
+    (
+        proptest::collection::vec(big_count(), 0..3),
+        proptest::collection::vec(
+            (big_count(), proptest::collection::vec(prop_oneof![3 => Just(Step::DeliverAll), 1 => (1u32..80_000).prop_map(Step::Deliver), 1 => Just(Step::Interrupted)], 0..3), 1u8..4),
+            1..5,
+        ),
+    )
+        .prop_map(|(warmup, reads)| SeqCase { warmup, reads })
+}
+
 fn case_strategy() -> impl Strategy<Value = Case> {
     (
         prop_oneof![Just(Via::Arena), Just(Via::EncoderReadN), Just(Via::DecoderReadN)],
@@ -491,11 +565,15 @@ pub fn run(ctx: &Ctx, rep: &mut Report) {
     engine::drive(ctx, rep, "random", case_strategy(), cases, check_case);
     let cases = ctx.share(ctx.tier.pick(40_000, 600_000));
     engine::drive(ctx, rep, "codec-read", codec_case_strategy(), cases, check_codec_case);
+    let cases = ctx.share(ctx.tier.pick(3_000, 200_000));
+    engine::drive(ctx, rep, "large-read-sequences", seq_case_strategy(), cases, check_seq_case);
 }
 
 fn replay(_ctx: &Ctx, group: &str, case: &Value) -> CaseResult {
     if group == "codec-read" {
         check_codec_case(&parse_case::<CodecCase>(case)?)
+    } else if group == "large-read-sequences" {
+        check_seq_case(&parse_case::<SeqCase>(case)?)
     } else {
         check_case(&parse_case::<Case>(case)?)
     }
@@ -504,7 +582,7 @@ fn replay(_ctx: &Ctx, group: &str, case: &Value) -> CaseResult {
 pub fn def() -> PropDef {
     PropDef {
         id: "C17",
-        rule: "A case is a reader fault script over {deliver k bytes, deliver all, Interrupted, end of file, hard error of four kinds} (end of file after the script), a count from {0,1,2,3,7,4096,70000,0..600}, an attempt limit 1..6, an arena state (fresh, pre-sized, 0..3 bytes left in the current chunk) and an entry point (ByteArena::read_n, Encoder::read_n, Decoder::read_n); codec-read cases are sequences of encode_read / decode_read calls each with its own script. The reader records the buffer size of every call. Oracle: a reference loop written from the documentation predicts the number of calls (<= attempts), the size offered in each call (count - delivered so far), where it stops (end of file, first non-interrupt error, count reached), the returned bytes and Ok/Err (Err with the last error's kind iff nothing was delivered and end of file did not come first); count 0 means no call and an empty slice; a following read does not overlap or change the returned slice; read_n alone leaves the codec output untouched and after encode_read / decode_read calls the final output is the reference encoding / decoding of exactly the delivered bytes. exhaustive-scripts enumerates all scripts up to length 4 (5) over 7 steps x 7 counts x 6 attempt limits x 5 (entry point, arena state) pairs. Non-trivial: the executed part of the script mixes >= 2 kinds of step and the read is short or failed. Distinct: hash of the serialised case / by enumeration.",
+        rule: "A case is a reader fault script over {deliver k bytes, deliver all, Interrupted, end of file, hard error of four kinds} (end of file after the script), a count from {0,1,2,3,7,4096,70000,0..600}, an attempt limit 1..6, an arena state (fresh, pre-sized, 0..3 bytes left in the current chunk) and an entry point (ByteArena::read_n, Encoder::read_n, Decoder::read_n); codec-read cases are sequences of encode_read / decode_read calls each with its own script; large-read-sequences are 1..4 reads in a row on one arena, optionally warmed up with ensure_capacity calls, with counts around the arena's chunk sizes (256 KiB .. 2 MiB, exactly 2^19 / 2^20 and +-1), all returned slices kept, compared and checked for overlap. The reader records the buffer size of every call. Oracle: a reference loop written from the documentation predicts the number of calls (<= attempts), the size offered in each call (count - delivered so far), where it stops (end of file, first non-interrupt error, count reached), the returned bytes and Ok/Err (Err with the last error's kind iff nothing was delivered and end of file did not come first); count 0 means no call and an empty slice; a following read does not overlap or change the returned slice; read_n alone leaves the codec output untouched and after encode_read / decode_read calls the final output is the reference encoding / decoding of exactly the delivered bytes. exhaustive-scripts enumerates all scripts up to length 4 (5) over 7 steps x 7 counts x 6 attempt limits x 5 (entry point, arena state) pairs. Non-trivial: the executed part of the script mixes >= 2 kinds of step and the read is short or failed. Distinct: hash of the serialised case / by enumeration.",
         assumptions: &["readers never deliver more than the buffer they are given", "reference codec of C07 for the codec-read outputs"],
         exhaustive_note: Some("exhaustive-scripts: complete enumeration"),
         shards: |t: Tier| t.pick(8, 16),
